@@ -147,6 +147,8 @@ def IRef.next (S : Bytes) (cur : Nat) : IOp × WRes → Option Nat
   | (_, .data _) => none
   | (.seek p, r) => if r.seekOk p then some p else some cur
   | (.feed _, _) => some cur
+  | (.fetch _, _) => some cur
+  | (.store, _) => some cur
   | (.protect _, _) => some cur
 
 def IRef.ok (S : Bytes) (cur : Nat) : List (IOp × WRes) → Prop
@@ -163,6 +165,15 @@ instance IRef.decOk (S : Bytes) : (cur : Nat) → (t : List (IOp × WRes)) → D
       have := IRef.decOk S cur' t
       decidable_of_iff (IRef.ok S cur' t) (by simp [IRef.ok, h])
     | none => isFalse (by simp [IRef.ok, h])
+
+/-- download-side operations use a block of at least one byte -/
+def IOp.blockOk : IOp → Bool
+  | .fetch blk => decide (1 ≤ blk)
+  | .feed blk => decide (1 ≤ blk)
+  | _ => true
+
+/-- the chunk fetched but not yet stored (empty when there is none) -/
+def IWorld.held (iw : IWorld) : Bytes := iw.chunk.getD []
 
 /-! ### reading traces -/
 
